@@ -18,6 +18,7 @@ pub mod c14;
 pub mod c15;
 pub mod c16;
 pub mod c17;
+pub mod c18;
 pub mod c19;
 
 pub struct PropSpec {
@@ -28,6 +29,8 @@ pub struct PropSpec {
     pub workers: u32,
     /// also run every worker from the binary built without overflow checks (C01)
     pub also_nochk: bool,
+    /// libFuzzer target run by the thorough tier (its saved corpus is replayed in process by the quick tier)
+    pub fuzz_target: Option<&'static str>,
     pub quick_budget_s: u64,
     pub thorough_budget_s: u64,
     pub min_nontrivial_quick: u64,
@@ -45,8 +48,48 @@ impl PropSpec {
     }
 }
 
+/// replays every saved input of a fuzz target's corpus (committed seeds, regressions) through the in-target oracle
+pub fn replay_fuzz_corpus(c: &mut Ctx, target: &str, accept: &[&str]) {
+    let root = std::path::PathBuf::from(std::env::var("VERIF_ROOT").unwrap_or_else(|_| "/verif".into()));
+    let mut files: Vec<std::path::PathBuf> = Vec::new();
+    for d in [root.join("corpus").join(target), root.join("corpus").join("regress")] {
+        if let Ok(rd) = std::fs::read_dir(&d) {
+            files.extend(rd.filter_map(|e| e.ok()).map(|e| e.path()).filter(|p| p.is_file() && (d.ends_with(target) || p.file_name().map(|n| n.to_string_lossy().starts_with(target)).unwrap_or(false))));
+        }
+    }
+    files.sort();
+    for (i, f) in files.iter().enumerate() {
+        if !c.mine(i as u64) {
+            continue;
+        }
+        let Ok(data) = std::fs::read(f) else { continue };
+        c.eval(1);
+        c.class("fuzz_corpus_replay");
+        let r = if target == "fz_line" { crate::fuzz_entry::check_line_bytes(&data) } else { crate::fuzz_entry::check_stream_bytes(&data) };
+        if let Err((prop, msg)) = r {
+            if accept.contains(&prop.as_str()) && !c.failed() {
+                c.fail(format!("saved fuzz input {}: [{}] {}", f.display(), prop, msg), "fuzz:corpus", fuzz_case(target, &data));
+            }
+        }
+    }
+}
+
+pub fn fuzz_case(target: &str, data: &[u8]) -> Value {
+    serde_json::json!({"kind": "fuzz_artifact", "target": target, "hex": data.iter().map(|b| format!("{:02x}", b)).collect::<String>()})
+}
+
+/// replay of a fuzz artifact case; returns Some(result) when `case` is one
+pub fn replay_fuzz_case(case: &Value) -> Option<Result<(), (String, String)>> {
+    if case.get("kind").and_then(|k| k.as_str()) != Some("fuzz_artifact") {
+        return None;
+    }
+    let hex = case["hex"].as_str().unwrap_or("");
+    let data: Vec<u8> = (0..hex.len() / 2).filter_map(|i| u8::from_str_radix(&hex[2 * i..2 * i + 2], 16).ok()).collect();
+    Some(if case["target"].as_str() == Some("fz_line") { crate::fuzz_entry::check_line_bytes(&data) } else { crate::fuzz_entry::check_stream_bytes(&data) })
+}
+
 pub fn all() -> Vec<PropSpec> {
-    vec![c01::spec(), c02::spec(), c03::spec(), c04::spec(), c05::spec(), c06::spec(), c07::spec(), c08::spec(), c09::spec(), c10::spec(), c11::spec(), c12::spec(), c13::spec(), c14::spec(), c15::spec(), c16::spec(), c17::spec(), c19::spec()]
+    vec![c01::spec(), c02::spec(), c03::spec(), c04::spec(), c05::spec(), c06::spec(), c07::spec(), c08::spec(), c09::spec(), c10::spec(), c11::spec(), c12::spec(), c13::spec(), c14::spec(), c15::spec(), c16::spec(), c17::spec(), c18::spec(), c19::spec()]
 }
 
 pub fn find(id: &str) -> Option<PropSpec> {
